@@ -152,9 +152,21 @@ end
 /-- `<&[u8] as Read>::read` with a buffer of `n` bytes -/
 def sliceRead (n : Nat) (bs : Bytes) : Out (Bytes × Bytes) := .ok (bs.take n, bs.drop n)
 
+/-- `n ≤ bs.length`, walking at most `n` cells (the length of the whole remaining input is never
+computed: a decode is linear in what it consumes) -/
+def lengthGe : Bytes → Nat → Bool
+  | _, 0 => true
+  | [], _+1 => false
+  | _ :: t, n+1 => lengthGe t n
+
+theorem lengthGe_iff (bs : Bytes) (n : Nat) : lengthGe bs n = true ↔ n ≤ bs.length := by
+  induction bs generalizing n with
+  | nil => cases n <;> simp [lengthGe]
+  | cons b t ih => cases n <;> simp [lengthGe, ih]
+
 /-- `<&[u8] as Read>::read_exact` -/
 def sliceReadExact (n : Nat) (bs : Bytes) : Out (Bytes × Bytes) :=
-  if n ≤ bs.length then .ok (bs.take n, bs.drop n) else .err eEof
+  if lengthGe bs n then .ok (bs.take n, bs.drop n) else .err eEof
 
 /-- 1 MiB: the initial allocation cap of `u8::vec_from_reader` -/
 def bulkCap : Nat := 2 ^ 20
